@@ -10,8 +10,14 @@ from vplib import *
 import lmmm
 from lmmm import *
 
-OCAML = lmmm.OCAML
-HARNESS = lmmm.HARNESS
+import importlib.util as _ilu0
+def _load_part(name):
+    sp = _ilu0.spec_from_file_location("part_" + name, os.path.join(VERIF, "checks", name + ".py"))
+    m = _ilu0.module_from_spec(sp); sp.loader.exec_module(m)
+    return m
+lmmx_part = _load_part("lmmx_part")
+OCAML = lmmm.OCAML + lmmx_part.OCAML
+HARNESS = lmmm.HARNESS + lmmx_part.HARNESS
 
 
 def run(ck):
@@ -107,7 +113,15 @@ def run(ck):
         ck.violation(what, {"source": pp_prog(p), "n_samples": len(rows), "inputs": rows if p['inputs'] else None,
                             "reference_outputs": mres[idx].get('ref'), **det,
                             "how": "echo '{\"src\":<source>,\"n\":N,\"inputs\":..}' | .cache/target/lang/debug/lmmm_run"})
-    viol = viol + wviol
+    # ---------------- closures, higher-order functions, pipes, default arguments, tuples, records: reference semantics Lmmx
+    # (Props/C02_ext.v) against both backends (checks/lmmx_part.py) ----------------
+    xviol = lmmx_part.run_part(ck, quick)
+    for what, rp in xviol[:6]:
+        ck.violation(what, {k: v for k, v in rp.items() if k != "no_input"}, no_input=bool(rp.get("no_input")))
+    for tag in sorted(set(x.split(":")[0].split("_")[0].rstrip("b") for x in ck.coverage.get("lmmx_corpus_findings_reproduced", []))):
+        if tag in findings:
+            ck.known(findings[tag], "witness corpus/lmmx/findings/%s_*.mmm" % tag)
+    viol = viol + wviol + [(w, None, None) for w, _ in xviol]
     if disag and not viol:
         what, idx = disag[0]
         ck.broken.append(what)
